@@ -2,7 +2,7 @@
 import ast
 
 from vstat.loader import AnalysisError
-from vstat.terms import builder, show, SELF, NONE, G, alts, walk, mentions, phi
+from vstat.terms import dict_entries, builder, show, SELF, NONE, G, alts, walk, mentions, phi
 from vstat.guards import path_conditions
 from vstat.cfg import cfg_of
 from vstat import algebra, scipyinfo
@@ -49,12 +49,13 @@ class MleInfo:
                 for tg in st.targets:
                     if isinstance(tg, ast.Name) and tg.id == nm:
                         t = self.b.term(st.value, st)
-                        if t[0] != "dict":
-                            raise AnalysisError(f"{self.fn.qualname}: {nm} is not initialised with a dict display")
-                        for k, v in t[1]:
+                        ents = dict_entries(t)
+                        if ents is None:
+                            raise AnalysisError(f"{self.fn.qualname}: {nm} is not initialised with an enumerable dict (display, ** merge, filtered copy)")
+                        for k, v, lits in ents:
                             if k[0] != "const":
                                 raise AnalysisError(f"{self.fn.qualname}: non-constant key in {nm}")
-                            self.kw_stores.append((k[1], v, self.pcs.of(st), st))
+                            self.kw_stores.append((k[1], v, tuple(self.pcs.of(st)) + tuple(lits), st))
                     elif isinstance(tg, ast.Subscript) and isinstance(tg.value, ast.Name) and tg.value.id == nm:
                         k = self.b.term(tg.slice, st)
                         if k[0] != "const":
@@ -81,4 +82,24 @@ class MleInfo:
         tg = st.targets[0]
         if isinstance(tg, (ast.Tuple, ast.List)):
             return list(tg.elts)
+        if isinstance(tg, ast.Name):
+            # result kept in a temporary: 'a, b, c = fitted' or 'self.a = fitted[0]; ...' (the temporary bound only by the fit)
+            rd = self.b.rd
+            by_pos = {}
+            for s2 in self.cfg.all_stmts():
+                if not isinstance(s2, ast.Assign) or len(s2.targets) != 1:
+                    continue
+                v = s2.value
+                src = v if isinstance(v, ast.Name) else v.value if isinstance(v, ast.Subscript) and isinstance(v.value, ast.Name) else None
+                if src is None or src.id != tg.id:
+                    continue
+                defs = [d for d in rd.reaching(tg.id, self.cfg.node(s2)) if d.kind != "del"]
+                if len(defs) != 1 or defs[0].stmt is not st:
+                    continue
+                if isinstance(v, ast.Name) and isinstance(s2.targets[0], (ast.Tuple, ast.List)):
+                    return list(s2.targets[0].elts)
+                if isinstance(v, ast.Subscript) and isinstance(v.slice, ast.Constant) and isinstance(v.slice.value, int) and v.slice.value >= 0:
+                    by_pos[v.slice.value] = s2.targets[0]
+            if by_pos:
+                return [by_pos.get(i, ast.Name(id="_", ctx=ast.Store())) for i in range(max(by_pos) + 1)]
         return None
